@@ -59,7 +59,10 @@ def r1(ctx):
     ccfg = cfg_of(cr)
     sets = {norm(n.targets[0]): sym_text(cr, n.value, ccfg.node_of(n), allow_calls=("len",)) if ccfg.node_of(n) is not None else norm(n.value)
             for n in walk_own(cr.node) if isinstance(n, ast.Assign) and isinstance(n.targets[0], ast.Attribute)}
-    ctx.check(sets.get("hdr.length") == "len(payload)" and sets.get("hdr.count") == "len(%s)" % cr.params[1] and sets.get("pkt.msg") == "payload"
+    # (the local that holds the encoded message area may have any name: the length is the length of what is stored as pkt.msg)
+    area = sets.get("pkt.msg")
+    ctx.check(isinstance(area, str) and area.isidentifier() and area not in cr.params and sets.get("hdr.length") == "len(%s)" % area
+              and sets.get("hdr.count") == "len(%s)" % cr.params[1]
               and sets.get("pkt.hdr") == cr.params[0], "C09.R1", cr, "create: length = len(payload), count = len(msgs), msg = payload",
               "length and count describe the payload exactly", witness=sets)
     fi = ctx.fn(FB)
